@@ -274,7 +274,9 @@ def h_order(eng, molecule):
 
 def h_ligand_records(eng):
     """every ligand HETATM record reaches the model: whatever alternate-location flag its records carry (a partially
-    occupied ligand is often labelled B or C against solvent labelled A), atoms with distinct names are all kept"""
+    occupied ligand is often labelled B or C against solvent labelled A), whether two copies of the ligand are told
+    apart by residue number or only by insertion code, and whatever bookkeeping records close the file (END, a single
+    MODEL/ENDMDL bracket without END, nothing), atoms with distinct names are all kept, once per copy"""
     import io as _io
 
     from pdb2pqr import biomolecule as biomol
@@ -282,18 +284,29 @@ def h_ligand_records(eng):
 
     from . import fixtures
 
-    lines = [ln for ln in fixtures.peptide_lines(["ALA", "GLY"]) if not ln.startswith("END")]
+    lines = [ln for ln in fixtures.peptide_lines(["ALA", "GLY"], ter=False) if not ln.startswith("END")]
     alts = [" ", "A", "B", "C"]
     names = ["C1", "O1", "O2"]
     chosen = [alts[eng.choice(f"altloc_{n}", len(alts))] for n in names]
-    for k, (n, alt) in enumerate(zip(names, chosen)):
-        lines.append(fixtures.atom_line(500 + k, n, "LIG", "L", 40, 10.0 + 1.3 * k, 9.0, 2.0, altloc=alt, record="HETATM"))
-    lines.append(fixtures.atom_line(600, "O", "HOH", "W", 50, 11.0, 12.0, 2.0, altloc="A", record="HETATM"))
-    records, _ = pdb.read_pdb(_io.StringIO("\n".join(lines + ["END"]) + "\n"))
-    bm = biomol.Biomolecule(records, fixtures.definition())
+    numbering = eng.choice("two_copies_numbered", 3)  # 0: one copy; 1: 40 and 41; 2: 40A and 40B (insertion codes only)
+    copies = [(40, " ")] if numbering == 0 else [(40, " "), (41, " ")] if numbering == 1 else [(40, "A"), (40, "B")]
+    layout = eng.choice("file_layout", 3)  # 0: ... TER END; 1: MODEL 1 ... TER ENDMDL (no END); 2: no closing record at all
+    chain = ["L", "A"][eng.choice("ligand_shares_the_protein_chain", 2)]
+    lines.append(fixtures.atom_line(300, "O", "HOH", chain, 30, 11.0, 12.0, 2.0, altloc="A", record="HETATM"))
+    for c, (num, ic) in enumerate(copies):
+        for k, (n, alt) in enumerate(zip(names, chosen)):
+            lines.append(fixtures.atom_line(500 + 10 * c + k, n, "LIG", chain, num, 10.0 + 1.3 * k, 9.0 + 4.0 * c, 2.0, altloc=alt, icode=ic, record="HETATM"))
+    text = {0: lines + ["TER", "END"], 1: ["MODEL        1"] + lines + ["TER", "ENDMDL"], 2: lines}[layout]
+    try:
+        records, _ = pdb.read_pdb(_io.StringIO("\n".join(text) + "\n"))
+        bm = biomol.Biomolecule(records, fixtures.definition())
+    except (IndexError, KeyError, ValueError) as e:
+        eng.check(False, "ligand-complex-is-read", note=f"layout {layout}, numbering {numbering}: {type(e).__name__}: {str(e)[:80]}")
+        return
     lig = [r for r in bm.residues if r.name == "LIG"]
-    got = sorted(a.name for r in lig for a in r.atoms)
-    eng.check(got == sorted(names), "every-ligand-record-reaches-the-model", note=f"ligand records with alternate-location flags {chosen}: the model's ligand residue holds {got}")
+    got = sorted((r.res_seq, (r.ins_code or " "), a.name) for r in lig for a in r.atoms)
+    want = sorted((num, ic, n) for num, ic in copies for n in names)
+    eng.check(got == want, "every-ligand-record-reaches-the-model", note=f"alternate-location flags {chosen}, copies {copies}, layout {layout}, chain {chain}: the model's ligand residues hold {got}")
 
 
 def obligations(tier):
